@@ -270,6 +270,10 @@ func Run(outDir string, seed int64, tier string) error {
 						if strings.HasPrefix(kind, "publicfile/") {
 							class = "C15-secret-bytes-in-public-file"
 						}
+						if strings.HasSuffix(kind, "/response-error") || strings.HasSuffix(kind, "/response") {
+							// what a network-facing endpoint returned to the caller of a packet it refused
+							class = "C15-secret-bytes-in-response"
+						}
 						rep.Fail(class, fmt.Sprintf("%s of scheme %s contains %s (%s)", kind, ids[i], s.Name, strings.Join(h, ",")),
 							map[string]interface{}{"output": kind, "scheme": ids[i], "secret": s.Name, "forms": h, "size": len(b), "excerpt": excerpt(b, s)})
 					}
